@@ -18,7 +18,7 @@ LEVEL_TEXT = (
     'lengths) are value-level statements that no structural rule here decides: a change that breaks '
     'them while keeping the shape is NOT detected.')
 
-FLOORS = {'C20-R1': 3, 'C20-R2': 3, 'C20-R3': 2, 'C10-R5': 2, 'C20-R4': 6}
+FLOORS = {'C20-R1': 3, 'C20-R2': 3, 'C20-R3': 2, 'C10-R5': 2, 'C20-R4': 7}
 
 DNM = 'util::densenatmap::DenseNatMap'
 
@@ -170,36 +170,68 @@ def run(ctx):
         c10.r5_densenatmap(ctx, F)
     # VectorClock hash/eq structure (shared with C04)
     with ctx.rule('C20-R4', 'VectorClock'):
-        ims = [x for x in c04.manual_impls(F, c04.HASH) if x[1]['path'] == 'util::vector_clock::VectorClock']
-        if not ims:
-            raise AnchorMissing('manual Hash impl of VectorClock')
-        body = c04.impl_method(F, ims[0][0], 'hash')
-        ctx.touched(body)
-        feeds = [c for c in body.calls if c.is_('Hash::hash') and c.targs and c04.LEN_FEEDING_SELF.match(c.targs[0])]
-        from common import on_all_paths
-        ok = len(feeds) == 1 and on_all_paths(F, body, feeds[0].bb) and \
-            noref(body.val(feeds[0].args[1])) == V('arg', 2)
-        ctx.check(ok, 'C20-R4', 'hash-length-prefixed-slice', body,
-                  good='VectorClock::hash feeds one length-prefixed slice to the hasher on every path',
-                  bad='VectorClock::hash does not feed exactly one length-prefixed slice on every path')
-        src = noref(body.trace(body.val(feeds[0].args[0]), ('Index::index', 'Deref::deref'))) if feeds else None
-        if src is not None and src.kind == 'local' and feeds[0].args[0].get('k') in ('copy', 'move'):
-            # the hashed slice may be narrowed in a loop (`while let [rest @ .., 0] = s { s = rest }`): every value it
-            # can stand for is (a part of) the components
-            from taint import origin_vals
-            leaves = set()
-            for v in origin_vals(body, feeds[0].args[0]):
-                v = noref(body.trace(noref(v), ('Index::index', 'Deref::deref', 'Vec::as_slice', 'AsRef::as_ref')))
-                if v.kind == 'local' and v.key == src.key:
-                    continue          # itself, narrowed
-                leaves.add((v.kind, v.key, tuple(f for f in v.fields() if not f.startswith('['))))
-            if leaves == {('arg', 1, ('.0',))}:
-                src = V('arg', 1, ('.0',))
-        ctx.check(src is not None and src.fields()[-1:] == ('.0',) and src.key == 1, 'C20-R4', 'hash-of-components', body,
-                  good='the hashed slice is a prefix of the clock\'s components',
-                  bad='VectorClock::hash does not hash the clock components')
+        vclock_hash_rules(ctx, F)
         vclock_no_binary_search(ctx, F)
         vclock_operators_follow_partial_cmp(ctx, F)
+
+
+def vclock_hash_rules(ctx, F):
+    """VectorClock::hash: one length-prefixed slice of the components, cut from the back (shared with C04)"""
+    ims = [x for x in c04.manual_impls(F, c04.HASH) if x[1]['path'] == 'util::vector_clock::VectorClock']
+    if not ims:
+        raise AnchorMissing('manual Hash impl of VectorClock')
+    body = c04.impl_method(F, ims[0][0], 'hash')
+    ctx.touched(body)
+    feeds = [c for c in body.calls if c.is_('Hash::hash') and c.targs and c04.LEN_FEEDING_SELF.match(c.targs[0])]
+    from common import on_all_paths
+    ok = len(feeds) == 1 and on_all_paths(F, body, feeds[0].bb) and \
+        noref(body.val(feeds[0].args[1])) == V('arg', 2)
+    ctx.check(ok, 'C20-R4', 'hash-length-prefixed-slice', body,
+              good='VectorClock::hash feeds one length-prefixed slice to the hasher on every path',
+              bad='VectorClock::hash does not feed exactly one length-prefixed slice on every path')
+    src = noref(body.trace(body.val(feeds[0].args[0]), ('Index::index', 'Deref::deref'))) if feeds else None
+    if src is not None and src.kind == 'local' and feeds[0].args[0].get('k') in ('copy', 'move'):
+        # the hashed slice may be narrowed in a loop (`while let [rest @ .., 0] = s { s = rest }`): every value it
+        # can stand for is (a part of) the components
+        from taint import origin_vals
+        leaves = set()
+        for v in origin_vals(body, feeds[0].args[0]):
+            v = noref(body.trace(noref(v), ('Index::index', 'Deref::deref', 'Vec::as_slice', 'AsRef::as_ref')))
+            if v.kind == 'local' and v.key == src.key:
+                continue          # itself, narrowed
+            leaves.add((v.kind, v.key, tuple(f for f in v.fields() if not f.startswith('['))))
+        if leaves == {('arg', 1, ('.0',))}:
+            src = V('arg', 1, ('.0',))
+    ctx.check(src is not None and src.fields()[-1:] == ('.0',) and src.key == 1, 'C20-R4', 'hash-of-components', body,
+              good='the hashed slice is a prefix of the clock\'s components',
+              bad='VectorClock::hash does not hash the clock components')
+    # only TRAILING zeros are padding (`<0, 1>` is not `<>`): the cut-off of the hashed prefix is found by a scan
+    # from the back - a front scan that stops at the first zero (`take_while`, `position`, `find`, ...) merges
+    # clocks that `==` tells apart
+    FRONT = ('Iterator::take_while', 'Iterator::position', 'Iterator::find', 'Iterator::map_while',
+             'Iterator::skip_while', 'Iterator::find_map', 'Iterator::take', 'Iterator::any', 'Iterator::all')
+    raw = F.bodies[body.path] if body.path in F.bodies else body
+    bad = []
+    for c in raw.calls:
+        if not c.is_(*FRONT) or not c.args:
+            continue
+        v = raw.val(c.args[0])
+        reversed_ = False
+        for _ in range(8):
+            cc_ = raw.call_at(v.key) if v.kind == 'call' else None
+            if cc_ is None or not cc_.args:
+                break
+            if cc_.is_('Iterator::rev', 'slice::rchunks', 'slice::rsplit'):
+                reversed_ = True
+                break
+            v = raw.val(cc_.args[0])
+        if not reversed_:
+            bad.append('%s@%s' % (c.short.split('::')[-1], c.span))
+    ctx.check(not bad, 'C20-R4', 'hash-cutoff-scans-from-the-back', body,
+              good='no front-to-back scan that stops early decides how much of the clock is hashed',
+              bad='VectorClock::hash cuts the hashed prefix with a scan from the front (%s): components behind the '
+                  'first zero are left out, so clocks that differ only there - and are unequal - feed the same '
+                  'bytes to the hasher and their states are merged' % sorted(bad))
 
 
 def vclock_operators_follow_partial_cmp(ctx, F):
